@@ -10,7 +10,7 @@ from pathlib import Path
 import numpy as np
 
 from harness import graphgen as gg
-from harness.common import WORK, Failure, HarnessError, cbool, exn_name
+from harness.common import WORK, Failure, HarnessError, cbool, dtype_name, exn_name
 from harness.storelib import Interner, abstract_meta_obj, c_meta, c_otree, dump_tree, tree_printable
 
 PROP = "C01"
@@ -178,14 +178,14 @@ def compare_prop(name, exp: dict, got: dict) -> str | None:
         for i, (a, b) in enumerate(zip(ev, gv)):
             if rows is not None and not rows[i]:
                 continue
-            if not isinstance(b, np.ndarray) or a.dtype != b.dtype or a.shape != b.shape or not same_values(a, b, None):
+            if not isinstance(b, np.ndarray) or a.dtype.name != b.dtype.name or a.shape != b.shape or not same_values(a, b, None):
                 return f"{name}: var-length element {i} differs"
         return None
-    edt = np.dtype("float32") if ev.dtype == np.float16 else ev.dtype
+    edt = np.dtype("float32") if ev.dtype.name == "float16" else ev.dtype
     if edt.kind == "U":
         if gv.dtype.kind != "U":
             return f"{name}: string property came back as {gv.dtype}"
-    elif gv.dtype != edt:
+    elif gv.dtype.name != edt.name:  # by numpy name: byte order is not part of the stated dtype
         return f"{name}: dtype {gv.dtype}, expected {edt}"
     if ev.shape != gv.shape:
         return f"{name}: shape {gv.shape}, expected {ev.shape}"
@@ -195,9 +195,9 @@ def compare_prop(name, exp: dict, got: dict) -> str | None:
 
 
 def compare_graph(nids, eids, nprops, eprops, back) -> str | None:
-    if back["node_ids"].dtype != nids.dtype or not np.array_equal(back["node_ids"], nids):
+    if dtype_name(back["node_ids"].dtype) != dtype_name(nids.dtype) or not np.array_equal(back["node_ids"], nids):
         return "node ids differ"
-    if back["edge_ids"].dtype != eids.dtype or back["edge_ids"].shape != eids.shape or not np.array_equal(back["edge_ids"], eids):
+    if dtype_name(back["edge_ids"].dtype) != dtype_name(eids.dtype) or back["edge_ids"].shape != eids.shape or not np.array_equal(back["edge_ids"], eids):
         return "edge ids differ"
     for which, exp, got in (("node", nprops or {}, back["node_props"]), ("edge", eprops or {}, back["edge_props"])):
         if set(exp) != set(got):
